@@ -258,8 +258,9 @@ class ProductStack:
         try:
             older = os.stat(file).st_mtime <= self.modtimes[file]
         except FileNotFoundError:
-            # File must have been deleted by other eups process.
-            del self.modtimes[file]
+            # File must have been deleted by other eups process; one that
+            # appears later was not written by us
+            self.modtimes[file] = 0
             return True
         return older
 
@@ -812,9 +813,19 @@ class ProductStack:
 
         cacheOkay = out._tryCache(dbpath, persistDir, flavors, verbose=verbose)
         if not cacheOkay:
+            # save() and ensureInSync() look at the files in persistDir, not
+            # at the ones in dbpath: note their times before anything is read
+            persistTimes = {}
+            for flav in flavors:
+                file = out._persistPath(flav)
+                try:
+                    persistTimes[file] = os.stat(file).st_mtime
+                except FileNotFoundError:
+                    persistTimes[file] = 0
             cacheOkay = out._tryCache(dbpath, dbpath, flavors)
             if cacheOkay:
                 out._loadUserTags(userTagDir)
+                out.modtimes.update(persistTimes)
 
         if not cacheOkay:
             out.refreshFromDatabase(userTagDir)
